@@ -407,6 +407,11 @@ func mysqlReplay(r *ev.Run, ks *filesystem.KeyStore) bool {
 			}
 			emitFindings(r, fs)
 		}
+	case "mysql-pumps":
+		mysqlPumpPhase(r, ks, r.Thorough())
+	case "mysql-pumps-dev": // developer shortcut: the pump phase alone
+		r.Replay = ""
+		mysqlPumpPhase(r, ks, r.Thorough())
 	case "mysql-all": // developer shortcut: {"replay":{"part":"mysql-all"}} runs the MySQL half alone
 		mysqlPart(r, ks, r.Thorough())
 	default:
